@@ -12,8 +12,8 @@ import StraxModel.Model.Contract
   range    `-` | `start,stop`
   down     `X` not a generator | `G#result#result…`
 -/
-namespace Strax.Driver
-open Strax Strax.Contract
+namespace Strax.Driver.C12
+open Strax Strax.Contract Strax.Driver
 
 def parseField (s : String) : Option RField :=
   match s.splitOn ":" with
@@ -135,6 +135,11 @@ def parseOuts (s : String) : Option (List (Except Err (Int × Int))) :=
     else match t.splitOn ":" with
       | [a, b] => do pure (.ok (← a.toInt?, ← b.toInt?))
       | _ => none
+
+end Strax.Driver.C12
+
+namespace Strax.Driver
+open Strax Strax.Contract Strax.Driver.C12
 
 def handleC12 : List String → Option String
   | ["c12.strip", dt] => do
